@@ -18,6 +18,10 @@ def potable_energy(defn_lines, form_lines=()):
     return tab.potentials
 
 
+def f_direct(n, r, ps):
+    return getattr(pfn, n)(r, *ps)
+
+
 def num(x):
     return repr(float(x))
 
@@ -89,6 +93,46 @@ def check(run):
                 vals = set(repr(routes[k]) for k in ("function", "factory", "potable"))
                 if len(vals) != 1 or not close(routes["formula"], routes["function"], 1e-12, 1e-300):
                     run.fail("form-route", "as.%s at r=%r params %s: access routes disagree: %s" % (n, r, ps, routes), dict(form=n, r=r, params=ps, routes=routes))
+    # ---- many entries of the SAME form in one model: each entry keeps its own parameters ---------------------------------------
+    # (parameter lists that differ in one position only, small integers of both signs and equal-looking values included: anything shared between
+    # entries - a cache, a re-used object, a closure over a loop variable - shows up as one entry evaluating another entry's parameters)
+    for n in names:
+        nparam = len(DOC_SIGNATURE[n])
+        if nparam == 0:
+            continue
+        for rep in range(run.n(2, 12)):
+            base = DOMAIN[n](rng)
+            variants = [list(base)]
+            for pos in range(nparam):
+                for alt in (-2.0, -1.0, 1.0, 2.0, base[pos] + 0.5):
+                    if n == "zbl" and alt <= 0:
+                        continue
+                    v = list(base)
+                    v[pos] = alt
+                    if v not in variants:
+                        variants.append(v)
+            rng.shuffle(variants)
+            variants = variants[:10]
+            lines = ["X%d-Y : >=0 as.%s %s" % (i, n, " ".join((str(int(x)) if float(x).is_integer() and rng.random() < 0.5 else num(x)) for x in v)) for i, v in enumerate(variants)]
+            try:
+                pots = potable_energy(lines)
+            except Exception as e:
+                run.fail("form-route", "as.%s: a model with %d entries of the form raised %s: %s" % (n, len(lines), type(e).__name__, str(e)[:200]), dict(form=n, lines=lines))
+                continue
+            bylabel = dict((p.speciesA, p) for p in pots)
+            r = formlib.r_value(rng, n)
+            run.case(key=("multi-entry", n, tuple(map(tuple, variants))), kind="multi-entry/" + n)
+            run.traces += 1
+            for i, v in enumerate(variants):
+                try:
+                    want = f_direct(n, r, v)
+                    got = bylabel["X%d" % i].energy(r)
+                except (OverflowError, ZeroDivisionError, ValueError):
+                    continue
+                if not (got == want or (got != got and want != want)):
+                    run.fail("form-route", "model with %d entries of as.%s: entry %r evaluates to %r at r=%r, as.%s with its own parameters %s gives %r" % (
+                        len(lines), n, lines[i], got, r, n, v, want), dict(form=n, potable_pair_section=lines, r=r, entry=i))
+                    break
     run.extra["zbl_max_relative_deviation_from_reference_manual_constants"] = zbl_manual_dev
     if zbl_manual_dev > 1e-9:
         run.fail("zbl-manual-constants", "as.zbl evaluates the ZBL-1985 constant set (0.8854*0.529; 0.1818/3.2 ...); the reference manual prints the universal set "
